@@ -31,6 +31,8 @@ FIXED = [
  ("F20", "C18", ["BDF does not count the evaluation made by the initial step-size guess"], "BDF: hinit's RHS call not counted in nfev", ["F20-bdf-hinit-eval-not-counted"]),
  ("F21", "C18", ["a step abandoned by the stiffness test is counted as accepted"], "DOPRI5/DOP853: ProbablyStiff exit counts the abandoned step as accepted (naccpt = reported steps + 1)", ["F21-probablystiff-counts-abandoned-step"]),
  ("F22", "C04", ["BDF loops forever when a step at min_step"], "BDF with min_step: a failing RHS (or unmeetable error test) at min_step loops forever (halve, raise back to min_step, ...); found as blocked runs of the C06 campaign, now generated by C04 itself", ["F22-bdf-min_step-hang"]),
+ ("F24", "C04", ["RADAU panics when min_step exceeds the maximum step"], "RADAU: clamp(hmin, hmax) panics when min_step > max_step or > the interval", ["F24-radau-min_step-gt-max-panics"]),
+ ("F25", "C09", ["events of slowly varying event functions are reported at a step end"], "DefaultSolOut compared |g| at the step ends with XTOL=2e-12 (an abscissa tolerance): events of event functions with small slope were reported at a step end, up to a whole step away from the root (also C08)", ["F25-event-precheck-compares-g-with-xtol"]),
  ("F23", "C06", ["sol(t) rejects the last reported time"], "Solution::sol/sol_many return OutOfRange for the last reported time when the final accepted abscissa is an ulp short of a reported t_eval time", ["F23-sol-rejects-last-reported-time"]),
 ]
 
